@@ -21,4 +21,30 @@ CHECKS = {
         "quick": [A("c02", params={"states": 2, "transports": 2, "batch_alpha": 12}, what="method x params x id product on 2 daemon states x 2 transports; batch pairs over 12 requests (twin)")],
         "thorough": [A("c02", params={"states": 4, "transports": 2, "batch_alpha": 28, "batch_triples": 8}, what="full product on 4 daemon states x 2 transports; batch pairs over 28 members, triples with 8 third members (twin)")],
     },
+    "C03": {
+        "level": "model_checking",
+        "text": "All sequences of enabled actions (requests from 2 callers and a bystander to 2 owners, owner replies incl. duplicated and forged ids, virtual-clock expiry, disconnect/reconnect of all 5 slots) up to depth 3 (quick) / 5 unmerged + 6 merged on model state (thorough) are executed on the real daemon and judged after every action by a reference model of in-flight requests (delivered once, unique id, payload unchanged, exactly one final answer with the owner's payload / timeout / shutdown error, nothing for id-less callers, forged and duplicate replies without effect); a payload layer exhausts transport x target x payload x id form x timeout x owner behaviour. The tiny variant (4-slot routing table) makes the per-owner refusal reachable.",
+        "note": "Trusted: simk's model of Linux, the reference model in drivers/c03_route.c. Bounded by depth and by one payload per request in the interleaving layer; merged tier assumes implementation state is a function of (model state, remaining depth).",
+        "technique": "stateless model checking of the implementation against a reference model (exhaustive action sequences to a depth bound, virtual clock, optional model-state merging)",
+        "quick": [A("c03", params={"depth": 3}, what="interleavings depth 3"),
+                  A("c03", params={"layer": 1}, what="payload product"),
+                  A("c03", variant="tiny", params={"depth": 3, "seedstate": 1}, what="interleavings depth 3 from a seeded state with 3 requests in flight, 4-slot routing tables")],
+        "thorough": [A("c03", params={"depth": 5}, what="interleavings depth 5, unmerged", deadline=1500),
+                     A("c03", params={"layer": 1}, what="payload product"),
+                     A("c03", variant="tiny", params={"depth": 4, "seedstate": 1}, what="tiny, depth 4 from seeded state", deadline=600),
+                     A("c03", variant="tiny", params={"depth": 4}, what="tiny, depth 4", deadline=600),
+                     A("c03", params={"depth": 6}, merge=True, what="interleavings depth 6 merged on (model state, remaining depth)", deadline=900)],
+        "thorough_deadline": 3400,
+    },
+    "C14": {
+        "level": "model_checking",
+        "text": "On the virtual clock of the simulated kernel: the full product of 12 request-timeout forms x 5 element-timeout forms x set/call x 3 endings x 2 transports checks the deadline value and precedence, refusal of sub-millisecond / non-numeric timeouts, 'nothing 1 ns before the deadline, exactly one error in the iteration at the deadline', and that a late reply has no effect; then every non-empty subset of {owner reply, expiry, caller gone, owner gone, second expiry} is made ready at the same instant and every dispatch order and every split into two loop iterations is executed (ASan + descriptor monitor decide 'no released object is touched').",
+        "note": "Trusted: simk's epoll/timerfd model (edge-triggered, arbitrary order among simultaneously ready descriptors), gcc ASan.",
+        "technique": "stateless model checking of the implementation: exhaustive enumeration of timeout forms and of all batch compositions / dispatch orders of simultaneously ready events",
+        "quick": [A("c14", params={"section": 0}, what="timeout value/precedence product"),
+                  A("c14", params={"section": 1, "max_events": 3}, what="orderings of <= 3 simultaneous events")],
+        "thorough": [A("c14", params={"section": 0}, what="timeout value/precedence product"),
+                     A("c14", params={"section": 1, "max_events": 5}, what="orderings of <= 5 simultaneous events"),
+                     A("c14", variant="tiny", params={"section": 1, "max_events": 5}, what="same with MAX_EPOLL_EVENTS=4 (batches are cut by the daemon's own limit)")],
+    },
 }
